@@ -174,6 +174,27 @@ class C19(Prop):
                         ctx.violate(f"dsp:sdft:{d}:{f}", f"sliding DFT<{'double' if d else 'float'}> bin {f} Hz after {n} samples of '{name}': |{abs(complex(re, im))!r}| vs direct DFT |{abs(direct)!r}|",
                                     {"stream": "sdft", "ops": [" ".join(ln.split()[:n + off + 1])]})
                         break
+        # long bin-centred tones: the recursive DFT must not decay or drift away from the direct DFT of the latest window (float and double)
+        nlong = 120000 if quick else 1000000
+        for f in (2400, 3600):
+            xs = [int(4096 * math.sin(2 * math.pi * f * k / 48000)) for k in range(nlong)]
+            for d in (0, 1):
+                ln = f"sdft {d} " + " ".join(map(str, xs))
+                o = ctx.run_impl(exe, [ln], "sdft-long", timeout=900)[0]
+                v = o.split()
+                ctx.count(("sdft-long", f, d, nlong), nontrivial=True)
+                if len(v) != 4 * nlong:
+                    continue
+                n = nlong - 1
+                bi = 0 if f == 2400 else 1
+                re = f_of_bits(int(v[4 * n + 2 * bi]), 1); im = f_of_bits(int(v[4 * n + 2 * bi + 1]), 1)
+                direct = sum((xs[n - m] / 4096) * cmath.exp(-2j * math.pi * f * (119 - m) / 48000) for m in range(120))
+                ctx.evaluations += 1
+                tol = 1e-6 if d else 1e-2
+                if abs(abs(complex(re, im)) - abs(direct)) > tol * abs(direct):
+                    ctx.violate(f"dsp:sdft-long:{d}", f"sliding DFT<{'double' if d else 'float'}> at {f} Hz after {nlong} samples of a bin-centred tone: |{abs(complex(re, im)):.4f}| vs "
+                                f"direct DFT of the latest window |{abs(direct):.4f}| (decay or drift of the recursion)",
+                                {"stream": "sdft-long", "ops": [f"sdft {d} <{nlong} samples of a {f} Hz tone: int(4096*sin(2*pi*f*k/48000))>"]})
         ctx.sample({"op": " ".join(lines[0].split()[:10]) + " ...", "impl(bit patterns)": " ".join(impl[0].split()[:4]) + " ..."})
 
     def read_taps(self):
